@@ -20,8 +20,8 @@ UNITS = [
           # per-loop bounds: bucket scan 101 iterations, chain / list loops L
           cbmc_flags=["--unwinding-assertions", "--object-bits", "10", "--unwind", "9", "--unwindset", f + ".1:103"])
        for w, (n, f) in enumerate((("keys", "p_hash_table_keys"), ("values", "p_hash_table_values"), ("lookup_by_value", "p_hash_table_lookup_by_value")))] + [
-] + [U(n + "_real_list", "h_listing_real", replace=[], defines=["LIST_WHICH=%d" % w], functions=[], canaries=1, defines_quick=["L=4"], defines_thorough=["L=6"], timeout=600, timeout_thorough=3600,
-          bound={"quick": "a table object of 3 buckets holding at most 4 entries in any distribution, real plist.c", "thorough": "3 buckets, at most 6 entries"},
+] + [U(n + "_real_list", "h_listing_real", replace=[], defines=["LIST_WHICH=%d" % w], functions=[], canaries=1, defines_quick=["L=4"], defines_thorough=["L=4"], timeout=600, timeout_thorough=3600,
+          bound="a table object of 3 buckets holding at most 4 entries in any distribution, real plist.c (6 entries: keys/values did not finish in 20 minutes)",
           cbmc_flags=["--unwinding-assertions", "--object-bits", "10", "--unwind", "9"])
        for w, n in enumerate(("keys", "values", "lookup_by_value"))] + [
     U("table_null", "h_table_null"),
